@@ -71,4 +71,33 @@ def connWith (wrap : World → Path → Option (Option StaticView)) (args : List
     String.intercalate " " (outs ++ [s!"fs={snapshotHash w'}", "leak=0", "out=0"])
   | _ => "bad-op"
 
+/-- `clean <hexpath>`: filepath.Clean("/" + p) -/
+def cleanOp (args : List String) : String :=
+  match args with
+  | [h] => match fromHex h with
+    | some p => toHex (PathStr.renderRooted (PathStr.cleanRequest p))
+    | none => "bad-op"
+  | _ => "bad-op"
+
+/-- `real <hexroot> <hexpath>`: BasePathFs.RealPath(Clean("/" + p)) for a rooted base path -/
+def realOp (args : List String) : String :=
+  match args with
+  | [hr, hp] => match fromHex hr, fromHex hp with
+    | some r, some p =>
+      toHex (PathStr.renderRooted (PathStr.cleanRooted [] (PathStr.splitSlash r) ++ PathStr.cleanRequest p))
+    | _, _ => "bad-op"
+  | _ => "bad-op"
+
+def rawWith (wrap : World → Path → Option (Option StaticView)) (args : List String) : String :=
+  match args with
+  | [aw, tree, stream] =>
+    match fromHex stream with
+    | none => "bad-op"
+    | some input =>
+      let w := parseTree tree
+      let cfg : Cfg := { allowWrite := aw == "1", wrap := wrap }
+      let (w', _, out, used) := serve cfg (input.length / 16 + 2) w {} input [] 0
+      s!"out={digest out} consumed={used} fs={snapshotHash w'} leak=0 out=0"
+  | _ => "bad-op"
+
 end Driver
